@@ -126,4 +126,40 @@ def null_action_in_space(ob):
 
 null_action_in_space.kind = "null_action_in_space"
 
-TABLE = {f.kind: f for f in (null_action_in_space, make_trades_raises, transact_nlv_delta, holdings_values_liquidation, accrued_interest_query)}
+def step_insolvent(ob):
+    """C09/D6: the step during which the account becomes insolvent must report done, not raise"""
+    import warnings
+    warnings.filterwarnings("ignore")
+    import numpy as np, pandas as pd
+    from datetime import datetime, timedelta
+    from tradingenv.env import TradingEnv
+    from tradingenv.contracts import ETF
+    from tradingenv.spaces import BoxPortfolio
+    spy = ETF("SPY")
+    d0 = datetime(2020, 1, 1)
+    grid = [d0 + timedelta(days=i) for i in range(5)]
+    prices = pd.DataFrame({spy: [100, 100, 300, 300, 300]}, index=grid)
+    env = TradingEnv(action_space=BoxPortfolio([spy], low=-2, high=2), prices=prices)
+    env.reset()
+    log = []
+    raised = None
+    for i in range(4):
+        try:
+            out = env.step(np.array([-1.0]))
+            log.append({"step": i, "reward": float(out[1]), "done": bool(out[2])})
+            if out[2]:
+                break
+        except Exception as ex:
+            raised = "%s: %s" % (type(ex).__name__, ex)
+            import traceback
+            site = [l.strip() for l in traceback.format_exc().splitlines() if "rewards.py" in l or "env.py" in l]
+            log.append({"step": i, "raised": raised, "through": site[-2:] if site else []})
+            break
+    return {"reproduced": raised is not None and raised.startswith("EndOfEpisodeError"),
+            "clause": "TradingEnv.step never lets EndOfEpisodeError escape unless the episode had already ended",
+            "scenario": "one ETF, 100% short, price 100 -> 300 at the third timestep", "trace": log}
+
+
+step_insolvent.kind = "step_insolvent"
+
+TABLE = {f.kind: f for f in (step_insolvent, null_action_in_space, make_trades_raises, transact_nlv_delta, holdings_values_liquidation, accrued_interest_query)}
